@@ -28,13 +28,15 @@ def rt_loops(l, b, maxs):
     ts, m = b // 4, min(l, b)
     elements = (max(m - 8, 0)) // 4 + 3 + m // maxs          # elements of one chunk + trailer tag (see roundtrip.c)
     chain = (min(m - 3, ts) + 1) if m >= 4 else 1            # dictionary chain: <= min (table size, positions added)
-    return {"reduce_decode_get#0": elements, "reduce_decode_get#1": m + 1,
+    # decoder-side loops get the buffer length b, not the input length m: an encoder defect that makes the decoder produce
+    # more than the input must end in the round-trip assertion, not in an unwinding failure
+    return {"reduce_decode_get#0": elements + 1, "reduce_decode_get#1": b + 1,
             "_reduce_encode_buf#0": m + 1, "_reduce_dict_add#0": chain,
             "_reduce_dict_find_longest#0": chain, "_reduce_dict_find_longest#1": m + 1,  # generous: a wrong length bound must show as a violation, not as an unwinding failure
             "_reduce_reset_next#0": ts + 1, "_reduce_hash_write#0": 9,
             "_reduce_uint_write#0": 5, "_reduce_uint_write#1": 4, "_reduce_uint_read#0": 6, "_reduce_uint_read#1": 5,
-            "_reduce_str2hash#0": 9, "strlen#0": 5, "memcmp#0": 4, "mir_hash_strict#0": m + 1,
-            "h_reader#0": m + 1, "h_reader#1": 9, "h_writer#0": m + 1, "h_writer#1": 4, "h_memcpy#0": m // 2 + 1}
+            "_reduce_str2hash#0": 9, "strlen#0": 5, "memcmp#0": 4, "mir_hash_strict#0": b + 1,
+            "h_reader#0": b + 1, "h_reader#1": 9, "h_writer#0": b + 1, "h_writer#1": 4, "h_memcpy#0": b + 1}
 
 
 def dec_ob(name, src, n, b=16, defs=(), checks="memsafe", timeout=900, what=""):
